@@ -658,12 +658,26 @@ func ruleTextExponent(c *Ctx) {
 		return
 	}
 	// the chain `if exp < 10 {...} else if ...` and the variables exp, padExp, buf
-	var chain *ast.IfStmt
+	var chain ast.Stmt
+	var expExpr ast.Expr
+	isHead := func(e ast.Expr) bool {
+		x, op, k, ok := p.normCmp(e)
+		if ok && op == token.LEQ && k.IsInt64() && k.Int64() == 9 && p.exprKey(x) != "" {
+			expExpr = x
+			return true
+		}
+		return false
+	}
 	for _, s := range fd.Body.List {
-		if ifs, ok := s.(*ast.IfStmt); ok {
-			if be, ok := ast.Unparen(ifs.Cond).(*ast.BinaryExpr); ok && be.Op == token.LSS {
-				if k, ok := p.constInt64(be.Y); ok && k == 10 && p.exprStr(be.X) == "exp" {
-					chain = ifs
+		switch x := s.(type) {
+		case *ast.IfStmt:
+			if isHead(x.Cond) {
+				chain = x
+			}
+		case *ast.SwitchStmt:
+			if x.Tag == nil && len(x.Body.List) > 0 {
+				if cl := x.Body.List[0].(*ast.CaseClause); len(cl.List) == 1 && isHead(cl.List[0]) {
+					chain = x
 				}
 			}
 		}
@@ -673,7 +687,7 @@ func ruleTextExponent(c *Ctx) {
 		c.undecided("expdigits.shape", fd, "exponent digit chain `if exp < 10 ...` not found", "C06", "C07", "C13")
 		return
 	}
-	expObj := p.objOf(ast.Unparen(chain.Cond).(*ast.BinaryExpr).X)
+	expObj := p.objOf(expExpr)
 	bufObj, padExpObj := ps[0], ps[6]
 	bad := ""
 	n := 0
